@@ -23,7 +23,7 @@ type Valuer struct {
 var marshalerType = reflect.TypeOf((*marshaler)(nil)).Elem()
 
 func nonPointerMarshal(d *Descriptor, val reflect.Value) (reflect.Value, bool) {
-	if !d.Ptr && reflect.PtrTo(d.Type).Implements(marshalerType) {
+	if !d.Ptr && val.Type() == d.Type && reflect.PtrTo(d.Type).Implements(marshalerType) {
 		v := reflect.New(d.Type)
 		v.Elem().Set(val)
 		return v, true
@@ -34,7 +34,7 @@ func nonPointerMarshal(d *Descriptor, val reflect.Value) (reflect.Value, bool) {
 var protoMessageType = reflect.TypeOf((*proto.Message)(nil)).Elem()
 
 func nonPointerProtoMessage(d *Descriptor, val reflect.Value) (reflect.Value, bool) {
-	if !d.Ptr && reflect.PtrTo(d.Type).Implements(protoMessageType) {
+	if !d.Ptr && val.Type() == d.Type && reflect.PtrTo(d.Type).Implements(protoMessageType) {
 		v := reflect.New(d.Type)
 		v.Elem().Set(val)
 		return v, true
